@@ -77,6 +77,8 @@ fn swept() -> Vec<Ex> {
 	vec![
 		Ex { flow: Flow::Send, change_n: 1, all: false, proof: true, big: false },
 		Ex { flow: Flow::Late, change_n: 2, all: true, proof: true, big: false },
+		// a late-locked send that leaves spendable outputs over (a second selection is possible)
+		Ex { flow: Flow::Late, change_n: 1, all: false, proof: false, big: false },
 		Ex { flow: Flow::SelfSend, change_n: 0, all: false, proof: false, big: false },
 		Ex { flow: Flow::Invoice, change_n: 1, all: false, proof: false, big: false },
 	]
@@ -882,6 +884,11 @@ fn run_case_inner(w: &World, ex: &Ex, mus: &[Mu], p: &Prep, mutated: &Slate, cha
 		Some(f) => f,
 		None => return mach("payer context has no fee".into()),
 	};
+	// outputs reserved by anything but this exchange (other pending artefacts of the world)
+	let locked_elsewhere = {
+		let mine: Vec<u32> = a.txs().into_iter().filter(|t| t.tx_slate_id == Some(id)).map(|t| t.id).collect();
+		a.outputs().iter().filter(|o| o.status == OutputStatus::Locked && !o.tx_log_entry.map(|e| mine.contains(&e)).unwrap_or(false)).count()
+	};
 	let mclass = mu_class(mus);
 	let entry = entry_name(ex.flow);
 	let fl = format!("{:?}", ex.flow);
@@ -1077,6 +1084,44 @@ fn run_case_inner(w: &World, ex: &Ex, mus: &[Mu], p: &Prep, mutated: &Slate, cha
 				if spendable(b) != p.pre_b {
 					out.problem = problem("spendable-not-restored", format!("issuer spendable {} after cancel, {} before the exchange", spendable(b), p.pre_b));
 					return out;
+				}
+			}
+			// the genuine reply arrives after the altered one was refused: if the wallet now returns a
+			// transaction, the same facts hold for it (in particular it spends exactly what the wallet
+			// holds reserved for this slate, under one log entry)
+			if ex.flow != Flow::Invoice {
+				let honest = slate_from_json(&p.reply);
+				if let Ok(Ok(s3)) = catch(|| a.finalize(&honest)) {
+					if let Ok(tx) = s3.tx_or_err() {
+						let outs = a.outputs();
+						let entries: Vec<TxLogEntry> = a.txs().into_iter().filter(|t| t.tx_slate_id == Some(id) && t.tx_type == TxLogEntryType::TxSent).collect();
+						if entries.len() != 1 {
+							out.problem = problem("retry-after-refusal/log-entries", format!("after a refused altered reply ({}) and the genuine reply the slate has {} live sent entries", e, entries.len()));
+							return out;
+						}
+						let reserved: BTreeSet<Vec<u8>> = outs
+							.iter()
+							.filter(|o| o.status == OutputStatus::Locked && entries.iter().any(|t| o.tx_log_entry == Some(t.id) && o.root_key_id == t.parent_key_id))
+							.map(|o| a.commit_of(o).0.to_vec())
+							.collect();
+						let spent: BTreeSet<Vec<u8>> = tx.inputs_committed().iter().map(|c| c.0.to_vec()).collect();
+						let all_locked = outs.iter().filter(|o| o.status == OutputStatus::Locked).count();
+						if reserved != spent || all_locked != locked_elsewhere + spent.len() {
+							out.problem = problem(
+								"retry-after-refusal/inputs-differ-from-reservation",
+								format!("after a refused altered reply ({}) the genuine reply was finalized: the transaction spends {} inputs, {} outputs are reserved under its entry, {} outputs are Locked in the wallet ({} of them by other pending transactions)", e, spent.len(), reserved.len(), all_locked, locked_elsewhere),
+							);
+							return out;
+						}
+						match a.stored_tx(&id) {
+							Ok(Some(st)) if tx_to_hex(&st) == tx_to_hex(tx) => {}
+							_ => {
+								out.problem = problem("retry-after-refusal/stored-tx-differs", "the transaction returned for the genuine reply is not the stored one".into());
+								return out;
+							}
+						}
+						out.label = format!("{}+retry-ok", out.label);
+					}
 				}
 			}
 			match sent_entry(a, id) {
